@@ -3,12 +3,12 @@ CONSTANTS
   ArgsOf <- MCArgs
   InitHeaps <- MCInit2
   MaxDepth = 1
-  Breaks <- BreaksQ
-  Degs <- DegsQ
-  MaxNpts = 5
-  Acts = {"CvSplit"}
+  Breaks <- BreaksT
+  Degs <- Degs4
+  MaxNpts = 8
+  Acts = {"FnBasis"}
   PtKinds = {"gen"}
-  WtKinds = {"none", "gen"}
+  WtKinds = {"none", "gen", "gen2"}
   ExtraNodes <- Extra0
   NodeSize = 2
   Scenario = "single"
@@ -17,7 +17,7 @@ CONSTANTS
   OtherMaxNpts = 4
 INVARIANT WellFormed
 PROPERTY FailedIsNoOp
-PROPERTY SplitRestricts
+
 ACTION_CONSTRAINT Log
 VIEW View
 CHECK_DEADLOCK FALSE
